@@ -139,6 +139,8 @@ type Core struct {
 	tok           tokState
 	lastRefundSig string
 	lastRefusal   map[int64]string
+	rlSig         string
+	govBlock      bool
 }
 
 // CoreOptions tune the generator for a property.
@@ -173,6 +175,8 @@ type CoreOptions struct {
 	RateLimit bool // put rate limits on the transfer paths
 	WGrant    int
 	Forward   int // percent of transfers carrying a packet-forward memo
+	TightQuota bool // rate limits with quotas of a few percent (binding) instead of 100%
+	GovSecs    int64
 	MEPT         uint64 // 03-connection MaxExpectedTimePerBlock (ns); 0 = default 30 s
 	UnbondSecs   int64
 	FarTimeouts  bool // packets use timeouts far in the future (worlds with very long delays)
@@ -222,7 +226,8 @@ func (p *Core) Setup(w *sim.World) {
 	}
 	clk := &sim.Clock{}
 	for i := 0; i < nch; i++ {
-		p.C = append(p.C, sim.NewChain(i, sim.ChainConfig{ChainID: fmt.Sprintf("simchain-%d", i+1), MaxExpectedTimePerBlock: p.Opt.MEPT, ExtraDenoms: p.Opt.Denoms, Clock: clk}, w.Stats))
+		p.C = append(p.C, sim.NewChain(i, sim.ChainConfig{ChainID: fmt.Sprintf("simchain-%d", i+1), MaxExpectedTimePerBlock: p.Opt.MEPT, ExtraDenoms: p.Opt.Denoms, Clock: clk,
+			GovVotingPeriod: time.Duration(p.Opt.GovSecs) * time.Second}, w.Stats))
 	}
 	a, b := p.C[0], p.C[1]
 	w.Chains = p.C
@@ -424,6 +429,7 @@ func (p *Core) chainTime(ci int) time.Time { return p.Now.Add(p.Skew[ci]) }
 // then runs the per-block oracles.
 func (p *Core) block(ci int) []*sim.TxResult {
 	c := p.C[ci]
+	p.rlIsolateEpochs(ci)
 	txs := c.Mempool
 	c.Mempool = nil
 	p.taps = p.taps[:0]
